@@ -2,7 +2,7 @@ package main
 
 // Pipeline.Run vs. the Lean interpreter model: recording items, random DAGs, error injection.
 import (
-	"bufio"
+	"encoding/json"
 	"errors"
 	"fmt"
 	"io"
@@ -18,6 +18,7 @@ import (
 	"gopkg.in/src-d/go-git.v4/plumbing/object"
 	"gopkg.in/src-d/go-git.v4/storage/memory"
 	"gopkg.in/src-d/hercules.v10/internal/core"
+	"gopkg.in/src-d/hercules.v10/verifharness/hv"
 )
 
 type spec struct {
@@ -26,7 +27,15 @@ type spec struct {
 	cfail, omit, hfail, bfail int
 }
 
+type cev struct {
+	inst, pos, commit, index int
+	merge                    bool
+	deps                     map[int]string
+}
+
 type world struct {
+	cevs       []cev
+	triggered  []string
 	next       int
 	log        []string
 	cc, hc, bc []int
@@ -73,20 +82,26 @@ func (r *rec) Consume(deps map[string]interface{}) (map[string]interface{}, erro
 		m = 1
 	}
 	var ds []string
+	dm := map[int]string{}
 	for _, e := range s.requires {
 		if v, ok := deps[ent(e)]; ok {
 			ds = append(ds, fmt.Sprintf("%d=%s", e, v.(string)))
+			dm[e] = v.(string)
 		} else {
 			ds = append(ds, fmt.Sprintf("%d=nil", e))
+			dm[e] = "nil"
 		}
 	}
+	w.cevs = append(w.cevs, cev{r.inst, r.pos, c, deps[core.DependencyIndex].(int), m == 1, dm})
 	w.log = append(w.log, fmt.Sprintf("C%d:%d:%d:%d:%s", r.inst, c, deps[core.DependencyIndex].(int), m, strings.Join(ds, ",")))
 	if s.cfail == k {
+		w.triggered = append(w.triggered, "consume-error")
 		return nil, fmt.Errorf("consume-error item %d", r.pos)
 	}
 	out := map[string]interface{}{}
 	for i, e := range s.provides {
 		if i == 0 && s.omit == k {
+			w.triggered = append(w.triggered, "omitted-output")
 			continue
 		}
 		out[ent(e)] = fmt.Sprintf("%d@%d", r.inst, c)
@@ -162,6 +177,7 @@ func (r *recF) Hibernate() error {
 	r.w.hc[r.pos]++
 	r.w.log = append(r.w.log, fmt.Sprintf("H%d", r.inst))
 	if r.sp().hfail == r.w.hc[r.pos] {
+		r.w.triggered = append(r.w.triggered, "hibernate-error")
 		return fmt.Errorf("hibernate-error item %d", r.pos)
 	}
 	return nil
@@ -170,6 +186,7 @@ func (r *recF) Boot() error {
 	r.w.bc[r.pos]++
 	r.w.log = append(r.w.log, fmt.Sprintf("B%d", r.inst))
 	if r.sp().bfail == r.w.bc[r.pos] {
+		r.w.triggered = append(r.w.triggered, "boot-error")
 		return fmt.Errorf("boot-error item %d", r.pos)
 	}
 	return nil
@@ -232,13 +249,8 @@ func genParents(rng *rand.Rand, n int) [][]int {
 }
 
 func main() {
-	seed, _ := strconv.ParseInt(os.Args[1], 10, 64)
-	count, _ := strconv.Atoi(os.Args[2])
-	ops, _ := os.Create(os.Args[3])
-	impl, _ := os.Create(os.Args[4])
-	wo, wi := bufio.NewWriter(ops), bufio.NewWriter(impl)
-	defer wo.Flush()
-	defer wi.Flush()
+	seed, count, wo, wi, _, done := hv.Args()
+	defer done()
 	errs, hibs, merges := 0, 0, 0
 	for it := 0; it < count; it++ {
 		rng := rand.New(rand.NewSource(seed + int64(it)))
@@ -368,9 +380,12 @@ func main() {
 				merges++
 			}
 		}
-		fmt.Fprintf(wo, "run %s %s %d %s\n", strings.Join(items, ";"), strings.Join(ts, ","), n, strings.Join(acts, " "))
+		fmt.Fprintf(wo, "run2 %s %s %d %s\n", strings.Join(items, ";"), strings.Join(ts, ","), n, strings.Join(acts, " "))
 		var outcome string
-		if err != nil {
+		if err == nil && res == nil {
+			outcome = "neither result nor error"
+			err = nil
+		} else if err != nil {
 			errs++
 			msg := err.Error()
 			// "<name>: Consume() did not return e<k>"
@@ -398,8 +413,120 @@ func main() {
 			outcome = fmt.Sprintf("ok %d %d %d [%s]", common.BeginTime, common.EndTime, common.CommitsNumber, strings.Join(fs, ", "))
 		}
 		fmt.Fprintf(wi, "%s => %s\n", strings.Join(w.log, " "), outcome)
+		if cls, what := oracle(w, plan, times, n, ni, err, res); what != "" {
+			js, _ := json.Marshal(map[string]interface{}{"seed": seed + int64(it), "parents": parents, "times": times,
+				"items": items, "distance": pipeline.HibernationDistance, "plan": acts})
+			hv.Fail(cls, string(js), what)
+		}
 	}
-	fmt.Fprintf(os.Stderr, "runs=%d errors=%d hibernates=%d merges=%d\n", count, errs, hibs, merges)
+	hv.Stats(map[string]int{"runs": count, "errors": errs, "hibernates": hibs, "merges": merges})
+}
+
+// oracle states C14 on the recorded run of the real Pipeline.Run (no model involved).
+func oracle(w *world, plan []core.VerifAction, times []int64, n, ni int, runErr error,
+	res map[core.LeafPipelineItem]interface{}) (string, string) {
+	// an injected failure that was reached must abort the run with an error, and only then
+	if runErr == nil && res == nil {
+		return "run-log", "Run returned neither a result nor an error"
+	}
+	if len(w.triggered) > 0 && runErr == nil {
+		return "run-log", "injected " + w.triggered[0] + " did not abort the run with an error"
+	}
+	if len(w.triggered) == 0 && runErr != nil {
+		return "run-log", "run failed without an injected failure: " + runErr.Error()
+	}
+	replays := map[int]int{}
+	for _, a := range plan {
+		if a.Action == 0 {
+			replays[w.cidx[a.Commit.Hash]]++
+		}
+	}
+	k := 0
+	step := 0
+	first := -1
+	var newest int64
+	seen := false
+	for _, a := range plan {
+		if a.Action != 0 {
+			continue
+		}
+		c := w.cidx[a.Commit.Hash]
+		if first < 0 {
+			first = c
+		}
+		if !seen || times[c] > newest {
+			newest, seen = times[c], true
+		}
+		provider := map[int]int{} // entity -> instance that produced it in this step
+		for pos := 0; pos < ni; pos++ {
+			if k >= len(w.cevs) {
+				if runErr != nil {
+					return "", "" // aborted run: the log simply stops
+				}
+				return "run-log", fmt.Sprintf("step %d: item %d was not invoked", step, pos)
+			}
+			e := w.cevs[k]
+			k++
+			if e.pos != pos || e.commit != c {
+				return "run-log", fmt.Sprintf("step %d: expected item %d on commit %d, got item %d on commit %d", step, pos, c, e.pos, e.commit)
+			}
+			if e.index != step {
+				return "run-log", fmt.Sprintf("step %d: item %d received index %d", step, pos, e.index)
+			}
+			if e.merge != (replays[c] > 1) {
+				return "run-log", fmt.Sprintf("step %d: merge flag %v but commit %d is replayed %d time(s)", step, e.merge, c, replays[c])
+			}
+			for ent, v := range e.deps {
+				inst, ok := provider[ent]
+				want := fmt.Sprintf("%d@%d", inst, c)
+				if !ok {
+					want = "nil" // cannot happen in a resolved pipeline unless the provider omitted its output
+				}
+				if v != want && !(runErr != nil && k == len(w.cevs)) {
+					return "run-log", fmt.Sprintf("step %d: item %d sees %s for entity %d, the last upstream provider produced %s", step, pos, v, ent, want)
+				}
+			}
+			sp := w.specs[pos]
+			for i, ent := range sp.provides {
+				if i == 0 && sp.omit == w.ccAt(k-1, pos) {
+					continue
+				}
+				provider[ent] = e.inst
+			}
+		}
+		step++
+	}
+	if runErr != nil {
+		return "", ""
+	}
+	if k != len(w.cevs) {
+		return "run-log", fmt.Sprintf("%d Consume calls beyond the planned steps", len(w.cevs)-k)
+	}
+	common := res[nil].(*core.CommonAnalysisResult)
+	if common.CommitsNumber != n {
+		return "run-log", fmt.Sprintf("summary reports %d commits, the input has %d", common.CommitsNumber, n)
+	}
+	if first >= 0 && common.BeginTime != times[first] {
+		return "run-log", fmt.Sprintf("summary begin time %d, first planned commit has %d", common.BeginTime, times[first])
+	}
+	if seen && common.EndTime != newest {
+		if newest < 0 {
+			return "all-commits-before-1970", fmt.Sprintf("summary end time %d, newest committer time %d", common.EndTime, newest)
+		}
+		return "run-log", fmt.Sprintf("summary end time %d, newest committer time %d", common.EndTime, newest)
+	}
+	return "", ""
+}
+
+// ccAt: which Consume call (1-based) of the item at position pos was event number k
+func (w *world) ccAt(k, pos int) int {
+	cnt := 0
+	for i := 0; i <= k && i < len(w.cevs); i++ {
+		if w.cevs[i].pos == pos {
+			cnt++
+		}
+	}
+	return cnt
 }
 
 func min(a, b int) int {
